@@ -19,10 +19,12 @@ VARIABLES l,      \* index of the last consumed trace line
           st,     \* abstract state after line l
           g,      \* ghost state after line l
           hits,   \* set of <<event name, check name>> whose antecedent was true (vacuity measure)
+          hasSub, \* sub-step observations (kind "Sub") were seen since the last ordinary line
+          sub,    \* the state of the last of them
           failing \* state-invariant checks (<<name, info>>) already failing in the previous state: a broken
                   \* invariant is reported at the step that broke it, not at every later observation
 
-vars == <<l, st, g, hits, failing>>
+vars == <<l, st, g, hits, failing, hasSub, sub>>
 
 Init == /\ l = 1
         /\ Tr[1].kind = "Reset"
@@ -30,6 +32,8 @@ Init == /\ l = 1
         /\ g = GhostStart(Tr[1].state)
         /\ hits = {}
         /\ failing = {}
+        /\ hasSub = FALSE
+        /\ sub = Tr[1].state
 
 Report(i, line, cs) ==
   \A c \in {c \in cs : ~c.ok /\ <<c.name, c.info>> \notin failing} :
@@ -39,8 +43,17 @@ Next ==
   /\ l < Len(Tr)
   /\ l' = l + 1
   /\ LET line == Tr[l + 1] IN
-     IF line.kind = "Reset"
+     IF line.kind = "Sub"
+       THEN \* the state between two positions of a sweep / close-positions message: only the sub-step contract is evaluated,
+            \* the step it belongs to is judged as a whole at its own line
+            /\ st' = st /\ g' = g /\ failing' = failing
+            /\ hasSub' = TRUE /\ sub' = line.state
+            /\ LET cs == SubChecks(IF hasSub THEN sub ELSE st, line.state) IN
+                 /\ Report(l + 1, line, cs)
+                 /\ hits' = hits \cup {<<line.ev.name, c.name>> : c \in {c \in cs : c.live}}
+     ELSE IF line.kind = "Reset"
        THEN /\ st' = line.state
+            /\ hasSub' = FALSE /\ sub' = sub
             /\ g' = GhostStart(line.state)
             /\ LET cs == AllInvChecks(line.state, GhostStart(line.state)) IN
                  /\ Report(l + 1, line, cs)
@@ -48,13 +61,17 @@ Next ==
                  /\ hits' = hits
      ELSE IF line.kind = "Halt"
        THEN /\ st' = st /\ g' = g /\ failing' = failing
+            /\ hasSub' = FALSE /\ sub' = sub
             /\ LET cs == StepChecks("Halt", line.ev, st, st, g) IN
                  /\ Report(l + 1, line, cs)
                  /\ hits' = hits \cup {<<line.ev.name, c.name>> : c \in cs}
      ELSE /\ st' = line.state
           /\ g' = GhostNext(line.kind, line.ev, st, line.state, g)
+          /\ hasSub' = FALSE /\ sub' = sub
           /\ LET ics == AllInvChecks(line.state, g')
-                 cs == StepChecks(line.kind, line.ev, st, line.state, g) \cup ics IN
+                 whole == StepChecks(line.kind, line.ev, st, line.state, g)
+                 \* with sub-step observations the third-party-close contract is judged look by look (the last stretch here)
+                 cs == (IF hasSub THEN {c \in whole : c.name \notin CoarseThirdParty} \cup SubChecks(sub, line.state) ELSE whole) \cup ics IN
                /\ Report(l + 1, line, cs)
                /\ failing' = {<<c.name, c.info>> : c \in {c \in ics : ~c.ok}}
                /\ hits' = hits \cup {<<line.ev.name, c.name>> : c \in {c \in cs : c.live}}
